@@ -14,6 +14,14 @@ CLAIMS = {
         text="18 Lean theorems (all names/filesystems/args, by induction on the path algebra) over an executable model of posixpath + Receiver._decide_destname/_remove_existing/_handle_file/_extract_file, with generated call skeletons as a proof obligation; model tied to the real Receiver methods by differential runs in a sandbox; oracle = filesystem snapshot of the sandbox and its parent.",
         note="Modelled not verified: CPython posixpath and zipfile member sanitisation (compared differentially), no symlinks/races. One recorded known finding (staging file foo.tmp clobbered).",
         tech="Lean 4 proof (path algebra induction) + skeleton agreement + differential correspondence"),
+    "C09": dict(
+        text="resume_obligations for every reachable state of the closed client x environment system (a new connection carries bind and then exactly the owed claim/release, open + every un-echoed message, close, list, allocate - finite certificate over the generated tables lifted by induction), per-machine resume/lost table theorems by decide, data-layer pending_until_echo / drain_resends_all, nothing_repeated over all drop patterns; per-step correspondence with the real client under frequent drops; two-real-client oracle (drops on both sides, then stable connectivity: every send_message delivered exactly once, in order; key/verifier/versions once).",
+        note="Certificate evaluated with native_decide (reported per theorem). Partial: the liveness clause (eventually delivered once both stay connected) is stated as a def and checked by the two-client oracle only; no fair-scheduler proof.",
+        tech="Lean 4: finite certificate (native_decide) + kernel-checked lifting + table decide + data-layer lemmas; per-step differential correspondence"),
+    "C18": dict(
+        text="each_at_most_once, causal_order (code<key<verifier<{versions,messages}), closed_last for every run of the closed system under arbitrarily reordering/duplicating servers, versions_before_messages under an order-preserving server (second certificate), table rows by decide; per-step correspondence with the real client; two-client oracle over both API styles incl. every get_* after closed failing.",
+        note="Certificates evaluated with native_decide (reported per theorem). The Deferred observers are covered by the OBSERVER component (WV.Props.C18obs) when present, otherwise only by the oracle.",
+        tech="Lean 4: finite certificates (native_decide) with monitors + kernel-checked lifting; per-step differential correspondence"),
     "C10": dict(
         text="Unbounded ARQ invariant (inv_reachable) and exactly_once_in_order / final_generation_delivers_all proved by induction over arbitrary event schedules on an executable model of Outbound/Inbound/Manager.got_record; tied to two real Managers with fake L2 connections by per-step state comparison.",
         note="Modelled not verified: L2 as an authenticated FIFO of whole records (C12), one connection at a time (C11), Twisted producer contract.",
